@@ -18,7 +18,7 @@ ID = "C11"
 TIERS = {"quick": {"n": 50000, "chunk": 250}, "thorough": {"n": 2000000, "chunk": 2000, "wall_cap": 3300}}
 RULE = (
     "each scenario is a seeded history (3-8 ops, 1 in 8 up to 25) over {write source (5 source paths incl. same basename in two dirs and a name with two dots, 3 fixed contents + fresh ones), "
-    "add_named_file (2 names), remove_named_file, restart, failing registration (missing source), registration whose copy is torn by ENOSPC after 0/50/100% of the bytes (3 in 4 retried at once, some after the source was rewritten), set_named_files() of 1-3 entries of which one may be missing}; after every op the store is compared with the abstract model through the live and a fresh instance and by a disk walk. "
+    "add_named_file (2 names), remove_named_file, restart, failing registration (missing source), registration whose copy is torn by ENOSPC after 0/50/100% of the bytes (3 in 4 retried at once, some after the source was rewritten), set_named_files() of 1-3 entries of which one may be missing, registration in which the k-th (1-14) file-system call inside the named-files area fails with EIO and which is then retried}; after every op the store is compared with the abstract model through the live and a fresh instance and by a disk walk. "
     "A scenario is non-trivial when some name holds >= 2 registrations; distinct = distinct abstract op-class sequences (op kind, name, content class new/current/earlier, basename change, instance age)."
 )
 ASSUMPTIONS = [
@@ -26,7 +26,7 @@ ASSUMPTIONS = [
     "no concurrent writers to the inputs directory (the library documents single-user instances)",
 ]
 REAL = REAL_ALL
-STUB = STUB_ALL + ["shutil.copy/copy2/copyfile and open(..., 'w'/'a') inside the named-files area during an add_torn op: a prefix of the bytes is stored and ENOSPC raised (disk-full fault)"]
+STUB = STUB_ALL + ["builtins.open / os.rename,replace,remove,mkdir,makedirs / shutil.copy*,move,rmtree during an add_iofault op: the k-th call naming a path inside the named-files area raises EIO before doing anything (verifsim/iofault.py)", "shutil.copy/copy2/copyfile and open(..., 'w'/'a') inside the named-files area during an add_torn op: a prefix of the bytes is stored and ENOSPC raised (disk-full fault)"]
 
 SOURCES = ["d0/a.csv", "d1/a.csv", "d0/b.csv", "d1/c.txt", "d1/r.2024-03.csv"]
 NAMES = ["n0", "n1"]
@@ -39,7 +39,7 @@ def content_bytes(cid):
 def generate(rng, i, tier):
     long = rng.random() < 0.125
     n = rng.randint(9, 25) if long else rng.randint(3, 8)
-    weights = {"write": rng.choice([2, 3, 4]), "add": rng.choice([3, 4, 6]), "remove": rng.choice([0, 1, 1, 2]), "restart": rng.choice([0, 1, 2]), "add_bad": rng.choice([0, 0, 1]), "add_torn": rng.choice([0, 1, 1]), "bulk": rng.choice([0, 0, 1])}
+    weights = {"write": rng.choice([2, 3, 4]), "add": rng.choice([3, 4, 6]), "remove": rng.choice([0, 1, 1, 2]), "restart": rng.choice([0, 1, 2]), "add_bad": rng.choice([0, 0, 1]), "add_torn": rng.choice([0, 1, 1]), "bulk": rng.choice([0, 0, 1]), "add_iofault": rng.choice([0, 1, 1, 2])}
     kinds = [k for k, w in weights.items() for _ in range(w)]
     srcs = rng.sample(SOURCES, rng.randint(2, 5))
     opsl = []
@@ -66,6 +66,9 @@ def generate(rng, i, tier):
             # the copy into the store dies part-way (disk full): the call raises; the caller usually tries again at once -
             # sometimes after the source has been rewritten with other bytes of the same length
             opsl.append({"op": "add_torn", "name": rng.choice(NAMES), "src": rng.choice(srcs), "cut": rng.choice([0.0, 0.5, 0.5, 1.0]), "retry": rng.random() < 0.75, "edit": rng.choice([None, None, "c0", "c1", "c2"])})
+        elif k == "add_iofault":
+            # the at-th file-system call the registration makes inside the named-files area fails (EIO); the caller retries
+            opsl.append({"op": "add_iofault", "name": rng.choice(NAMES), "src": rng.choice(srcs), "at": rng.randint(1, 14)})
         elif k == "bulk":
             # set_named_files({...}): several registrations in one call; one of the sources may be missing, which ends the call there
             items = [[nm, rng.choice(srcs)] for nm in rng.sample(NAMES, rng.randint(1, 2))]
@@ -341,6 +344,39 @@ def execute(sc):
                 sp = os.path.join("src", op["src"])
                 if not os.path.isfile(sp) or _read(sp) != data:
                     out.v("source_touched", f"step {step}: source {sp} missing or changed after add_named_file")
+            elif k == "add_iofault":
+                if op["src"] not in src_now:
+                    out.log(step, "noop")
+                    continue
+                from ..iofault import IOFault
+
+                data = src_now[op["src"]]
+                sha = _sha(data)
+                base = op["src"].split("/")[-1]
+                sp = os.path.join("src", op["src"])
+                with IOFault(at=op["at"], under=[os.path.join("inputs", "named_files")]) as fst:
+                    try:
+                        with ops.quiet():
+                            cs.file_manager.add_named_file(name=op["name"], path=sp)
+                    except Exception as e:  # noqa: BLE001
+                        if not fst["fired"]:
+                            raise
+                        if not ops.in_repo(e) and not isinstance(e, OSError):
+                            raise
+                if fst["fired"]:
+                    out.fault("io_error")
+                    out.extra.setdefault("io_fault_sites", [])
+                    out.extra["io_fault_sites"].append(fst["what"].split(" ")[0] + " " + os.path.basename(fst["what"]).split(".")[-1])
+                    cls.append("fault@" + fst["what"].split(" ")[0])
+                    # the caller tries again; after a registration that returned, the statement applies in full
+                    with ops.quiet():
+                        cs.file_manager.add_named_file(name=op["name"], path=sp)
+                    out.probe("registration retried after an I/O error inside it")
+                vs = model.setdefault(op["name"], [])
+                if not vs or (vs[-1][0], vs[-1][1]) != (sha, base):
+                    vs.append((sha, base, data))
+                if _read(sp) != data:
+                    out.v("source_touched", f"step {step}: source {sp} changed by add_named_file")
             elif k == "add_torn":
                 if op["src"] not in src_now:
                     out.log(step, "noop")
@@ -458,6 +494,7 @@ def execute(sc):
         out.probe("registration retried after a torn copy", False)
         out.probe("source rewritten between a torn copy and its retry", False)
         out.probe("bulk registration that fails part-way", False)
+        out.probe("registration retried after an I/O error inside it", False)
         out.nontrivial = any(len(vs) >= 2 for vs in model.values()) or any("repeat" in c for c in out.sig)
         out.states.append(json.dumps(sorted((n, [(v[0][:6], v[1]) for v in vs]) for n, vs in model.items())))
         out.runs = len(sc["ops"])
